@@ -29,7 +29,7 @@ const ModulePath = "github.com/uhppoted/uhppote-core"
 
 func NewSession(repo, specDir, work string) (*Session, error) {
 	start := time.Now()
-	cfg := &packages.Config{Mode: packages.LoadAllSyntax, Dir: repo,
+	cfg := &packages.Config{Mode: packages.LoadAllSyntax, Dir: repo, BuildFlags: []string{"-tags=verif"},
 		Env: append(os.Environ(), "GOFLAGS=-mod=mod", "GOPROXY=off", "GOSUMDB=off", "GOTOOLCHAIN=local")}
 	pkgs, err := packages.Load(cfg, "./...")
 	if err != nil {
@@ -182,7 +182,11 @@ func Summarize(results []*FuncResult) []*OblSummary {
 			sm.Instances++
 			sm.Time += o.Time
 			sm.Solvers[o.Solver]++
-			if o.Status != "unsat" {
+			if o.Status == "known-finding" {
+				if sm.Status == "unsat" {
+					sm.Status = "known-finding"
+				}
+			} else if o.Status != "unsat" {
 				sm.Status = o.Status
 				sm.Failed = append(sm.Failed, o)
 			}
